@@ -11,6 +11,7 @@ disqualifying), or the expiry instant simply passes. After every event the same 
   S  (conditions of the key rather than of its history) the key packet alone, loaded without any identity ("no self-signature"), and a
      key whose only self-signature was damaged ("no valid self-signature"): the property lists both as disqualifying, so verify() must
      be falsy. PGPy's PGPKey.self_verified is a stub that answers OK (finding D41): these cases are reported as KNOWN-FINDING.
+  D  (one case per object kind) a bytearray document edited in place between verifications with the same signature object
   T  (one case per object kind) a key with a lifetime that ends two to three seconds from now: verify, wait for the instant, verify
 
 Histories: every sequence over {V, X, R} of length <= 4 with at most one X and one R, on three kinds of object (the public twin, the
@@ -80,6 +81,19 @@ def run_case(case):
         key = fresh(case['alg'], now - timedelta(days=10))
         sig = key.sign('some text')
         wrong = key.sign('other text')
+        if case['history'] == 'D':
+            # the same signature object and the same document OBJECT (a bytearray), edited in place between verifications
+            obj = subject(key, case['kind'])
+            doc = bytearray(b'some text')
+            dsig = key.sign(bytes(doc))
+            probs += verdict_problems(obj.verify(doc, dsig), 1, True, 'document as signed')
+            doc[0] ^= 0x01
+            probs += verdict_problems(obj.verify(doc, dsig), 1, False, 'the same document object after one bit of it was changed in place')
+            doc[0] ^= 0x01
+            probs += verdict_problems(obj.verify(doc, dsig), 1, True, 'the same document object after the bit was restored')
+            doc += b'!'
+            probs += verdict_problems(obj.verify(doc, dsig), 1, False, 'the same document object after an octet was appended')
+            return case, probs
         if case['history'] == 'S':
             from specs import indep
             pk = indep.packets(bytes(key.pubkey))
@@ -137,6 +151,7 @@ def component(tier='quick', seed=0, known=()):
     cases = [{'alg': a, 'kind': k, 'history': h} for a in ALGS for k in KINDS for h in histories(maxlen)]
     cases += [{'alg': a, 'kind': k, 'history': 'T'} for a in ALGS for k in KINDS]
     cases += [{'alg': a, 'kind': k, 'history': h, 'variant': 'the certification has itself expired'} for a in ALGS for k in KINDS for h in ('XV', 'VXV', 'XRV')]
+    cases += [{'alg': a, 'kind': k, 'history': 'D'} for a in ALGS for k in KINDS]
     cases += [{'alg': a, 'kind': k, 'history': 'S'} for a in ALGS for k in ('key packet alone', 'only self-signature damaged')]
     cases.sort(key=lambda c: c['history'] != 'T')
     ctx = multiprocessing.get_context('fork')
